@@ -52,8 +52,8 @@ SAMPLED = {"quick": 1400, "thorough": 24000}
 CASES = {t: len(_EXH[t]) + SAMPLED[t] for t in ("quick", "thorough")}
 FLOOR = {"quick": 1800, "thorough": 25000}
 FLOOR_COUNTERS = {
-    "quick": {"links_judged": 4000, "exhaustive_schedule_cases": len(_EXH["quick"]), "prefix_init_fits": 150, "threshold_toggles": 300},
-    "thorough": {"links_judged": 60000, "exhaustive_schedule_cases": len(_EXH["thorough"]), "prefix_init_fits": 2500, "threshold_toggles": 5000},
+    "quick": {"links_judged": 4000, "exhaustive_schedule_cases": len(_EXH["quick"]), "prefix_init_fits": 150, "threshold_toggles": 300, "estimators_with_a_past": 300, "small_unit_cases": 60},
+    "thorough": {"links_judged": 60000, "exhaustive_schedule_cases": len(_EXH["thorough"]), "prefix_init_fits": 2500, "threshold_toggles": 5000, "estimators_with_a_past": 5000, "small_unit_cases": 1000},
 }
 RULE = (
     "case = one of 13 selector variants (FPS, PCov-FPS both directions, VoronoiFPS, CUR/PCov-CUR both directions with "
@@ -117,6 +117,9 @@ def gen(rng, tier, index):
         exhaustive = False
     direction, cls, extra = VARIANTS[v]
     X = _matrix(rng, n, m, kind)
+    unit = 1.0
+    if not exhaustive and rng.random() < 0.25:
+        unit = float(2.0 ** int(rng.integers(-24, 12)))
     spec = {"dir": direction, "cls": cls, "kw": dict(extra)}
     for _ in range(20):  # the enumerated block must not lose cases to the conditioning guard
         if not exhaustive or sel.pcov_spectrum_guard(spec, X):
@@ -144,7 +147,10 @@ def gen(rng, tier, index):
         if forms == "mixed" and rng.random() < 0.35:
             thr = gens.pick(rng, ("absolute", "relative"))
         links.append({"n": nts, "resolved": int(e), "threshold": thr})
-    return {"spec": spec, "X": X, "y": y, "kind": kind, "links": links, "exhaustive": exhaustive}
+    past = None
+    if not exhaustive and rng.random() < 0.3:  # the chain's estimator was cold-fitted before on other data of the same shape
+        past = {"X": rng.normal(size=X.shape) * unit, "y": None if y is None else rng.normal(size=len(X)), "n": int(rng.integers(1, min(N, nfin + 3) + 1))}
+    return {"spec": spec, "X": X * unit, "y": y, "kind": kind, "links": links, "exhaustive": exhaustive, "unit": unit, "past": past}
 
 
 def _state(est, spec):
@@ -156,6 +162,8 @@ def _state(est, spec):
     if spec["cls"] in sel.FPS_FAMILY:
         st["table"] = np.array(est.get_distance(), copy=True)
         st["sd"] = np.array(est.get_select_distance(), copy=True)
+        if hasattr(est, "hausdorff_at_select_"):
+            st["at_select"] = np.array(est.hausdorff_at_select_, copy=True)
     else:
         st["table"] = np.array(est.pi_, copy=True)
         st["Xc"] = np.array(est.X_current_, copy=True)
@@ -191,6 +199,13 @@ def run(case, j):
     seq = [e["idx"] for e in trc.commits()]
     j.ok("cold fit makes the requested number of selections", len(seq) == nfin, (len(seq), nfin))
     sel.require(sel.first_repeat(seq) is None and not sel.exhausted(spec, X, y, seq[:-1]), "candidates-exhausted")
+    if not fam_fps:
+        # the leverage scores are only determined (to the 1e-12 of the code's eigensolver) when the top-k
+        # subspace is separated at every refresh point the chain or the cold fit goes through
+        for r in ([0] if re == 0 else range(nfin)):
+            _, gap_ok = sel.pi_oracle(spec, X, y, seq[:r])
+            if not gap_ok:
+                raise Skip("degenerate-top-k-subspace")
     commits = trc.commits()
     picks = trc.picks()
     ninit = len(seq) - len(picks)
@@ -198,7 +213,7 @@ def run(case, j):
     if fam_fps:
         finite = [np.abs(c["table"][np.isfinite(c["table"])]).max(initial=0.0) for c in commits]
         scale = max(max(finite), float((sel.items(X, axis) ** 2).sum(axis=1).max()), 1e-300)
-    tol = 1e-9 * scale if fam_fps else 1e-7
+    tol = 1e-9 * scale if fam_fps else 5e-6  # pi: ARPACK tol 1e-12 over a relative gap >= 1e-6
     # first step at which the cold trace shows a tie
     first_tie = None
     for t, pk in enumerate(picks):
@@ -209,7 +224,7 @@ def run(case, j):
         if not fam_fps:
             s[seq[: t + ninit]] = -np.inf
         top = np.sort(s[np.isfinite(s)])[::-1]
-        if len(top) > 1 and top[0] - top[1] <= (1e-9 * scale if fam_fps else 1e-6):
+        if len(top) > 1 and top[0] - top[1] <= (1e-9 * scale if fam_fps else 2e-5):
             first_tie = t + ninit
             break
     cold_state = _state(cold, spec)
@@ -217,6 +232,12 @@ def run(case, j):
 
     # ---- the warm chain
     est = sel.make(spec)
+    if case.get("unit", 1.0) < 1e-4:
+        j.note("small_unit_cases")
+    if case.get("past"):
+        est.n_to_select = case["past"]["n"]
+        j.lib("fit:earlier-history", sel.fit, est, case["past"]["X"], case["past"]["y"], spec)
+        j.note("estimators_with_a_past")
     diverged = False
     for li, link in enumerate(links):
         est.n_to_select = link["n"]
@@ -251,10 +272,12 @@ def run(case, j):
         if fam_fps:
             j.close("distance table after the link == cold fit's table after the same step", st["table"], ref_tab, tol, {"link": li, "e": e})
             j.close("select distances == cold fit's", st["sd"], cold_sd[:e], tol, {"link": li})
+            if e == nfin and "at_select" in st and "at_select" in cold_state:
+                j.close("per-item distance-at-selection table == cold fit's (no stale entries)", st["at_select"], cold_state["at_select"], tol)
         else:
             ok = np.allclose(st["table"], ref_tab, rtol=0, atol=tol)
-            if not ok and re == 1:
-                _, gap_ok = sel.pi_oracle(spec, X, y, seq[:e])
+            if not ok:
+                _, gap_ok = sel.pi_oracle(spec, X, y, seq[:e] if re == 1 else [])
                 if not gap_ok:
                     j.skip("pi-compare-at-degenerate-subspace")
                     ok = None
